@@ -1,6 +1,7 @@
 import CogentModel.Json
 import CogentModel.Model.View
 import CogentModel.Spec.PySlice
+import CogentModel.Model.SeqWrap
 open CogentModel CogentModel.View
 
 def errStr : Err → String
@@ -23,6 +24,33 @@ def parseFl (j : J) : Except String Flavour := do
   | "seqview" => pure .seqView
   | "seqdataview" => pure .seqDataView
   | s => throw s!"bad flavour {s}"
+
+
+/-- complement table from a JSON object `{"A":"T",…}`; characters not in the table are unchanged -/
+def compOf (j : J) : Except String (Char → Char) := do
+  match j with
+  | J.obj kvs =>
+    let tbl ← kvs.mapM fun (k, v) => do
+      let vs ← v.toStr
+      match k.toList, vs.toList with
+      | [a], [b] => pure (a, b)
+      | _, _ => throw "comp entries must be single characters"
+    pure fun c => match tbl.find? (·.1 = c) with
+      | some (_, b) => b
+      | none => c
+  | _ => throw "comp must be an object"
+
+def seqJ (comp : Char → Char) (s : SeqWrap.Seq) : J :=
+  J.obj [("str", J.str (String.ofList (SeqWrap.str comp s))), ("len", J.num (SeqWrap.length s)),
+         ("start", J.num s.v.start), ("stop", J.num s.v.stop), ("step", J.num s.v.step),
+         ("seq_len", J.num s.v.seqLen), ("parent", J.str (String.ofList s.parent))]
+
+def parseSOp (op : J) : Except String SeqWrap.SOp := do
+  match ← op.toList with
+  | [J.str "s", a, b, c] => pure (.slice (← a.toOptInt) (← b.toOptInt) (← c.toOptInt))
+  | [J.str "i", k] => pure (.index (← k.toInt))
+  | [J.str "rc"] => pure .rc
+  | _ => throw "bad op"
 
 /-- run a chain of ops; stops at the first error; returns the list of states -/
 def runChain (fl : Flavour) : View → List J → Except String (List J)
@@ -72,6 +100,17 @@ def handle (cmd : String) (j : J) : Except String J :=
     let c ← (← j.get "c").toInt
     if c = 0 then throw "step 0"
     pure (J.arr ((PySlice.sliceIdx n (← (← j.get "a").toOptInt) (← (← j.get "b").toOptInt) c).map J.num))
+  | "seqchain" => do
+    -- the Sequence wrapper model on a real parent string with the real complement table
+    let parent ← (← j.get "parent").toStr
+    let nucleic ← (← j.get "nucleic").toBool
+    let comp ← compOf (← j.get "comp")
+    let ops ← (← (← j.get "ops").toList).mapM parseSOp
+    let s0 := SeqWrap.ofString parent.toList nucleic
+    let tr := SeqWrap.trace s0 ops
+    pure (J.arr (seqJ comp s0 :: tr.map fun r => match r with
+      | .ok s => seqJ comp s
+      | .error e => J.obj [("err", J.str (errStr e))]))
   | _ => throw s!"unknown command {cmd}"
 
 def main : IO Unit := driverLoop handle
